@@ -1082,15 +1082,22 @@ def c11_r4(ctx):
                 if w and f.dominated_by_edges(r.bb, w_ok) and temp and {x + "~" for x in dst} == cls:
                     ok = True
         if not ok:
-            # helper: the caller may create a temp name and rename afterwards
-            for cs in ctx.P.callers.get(f.id, []):
+            # helper: the caller may create a temp name and rename afterwards (every caller must)
+            callers = [cs for cs in ctx.P.callers.get(f.id, []) if not cs.fn.body.get("in_test")]
+            n_ok = 0
+            for cs in callers:
                 g = cs.fn
                 for r in sys_calls(g, "rename"):
                     if g.dominated_by_edges(r.bb, g.edges_of_call_variant(cs, "Ok")):
                         po = [a for a in cs.args if ty_is_path(g, a)]
                         dst = classify_path_operand(ctx.P, g, r.args[2])
-                        if po and g.origins_of_operand(r.args[1]) == g.origins_of_operand(po[0]) and temp and {x + "~" for x in dst} == cls:
-                            ok = True
+                        here = classify_path_operand(ctx.P, g, po[0]) if po else set()
+                        if po and g.origins_of_operand(r.args[1]) == g.origins_of_operand(po[0]) and here and all(x.endswith("~") for x in here) \
+                                and {x + "~" for x in dst} == here:
+                            n_ok += 1
+                            break
+            if callers and n_ok == len(callers):
+                ok = True
         if ok:
             ctx.ok()
         else:
